@@ -149,6 +149,10 @@ func ProviderFor(kind string) restful.CompressorProvider {
 		return restful.NewBoundedCachedCompressors(1, 1)
 	case "bounded4":
 		return restful.NewBoundedCachedCompressors(4, 4)
+	case "bounded2-1":
+		return restful.NewBoundedCachedCompressors(2, 1)
+	case "bounded1-3":
+		return restful.NewBoundedCachedCompressors(1, 3)
 	}
 	return restful.NewSyncPoolCompessors()
 }
